@@ -29,6 +29,7 @@ PROPS = {
         modules=['SimProc.Props.C01', 'SimProc.Props.Facts'],
         prop_files=['SimProc/Props/C01.lean', 'SimProc/Props/Facts.lean'],
         families=[('env', 300, 6000)],
+        impl_only_families=[('envdec', 150, 3000)],
         tags=ENV_TAGS,
         monitors=M.MONITORS['C01'],
         nontrivial=env_nontrivial,
@@ -44,6 +45,7 @@ PROPS = {
         modules=['SimProc.Props.C07'],
         prop_files=['SimProc/Props/C07.lean'],
         families=[('env', 300, 6000)],
+        impl_only_families=[('envdec', 150, 3000)],
         tags=ENV_TAGS,
         monitors=M.MONITORS['C07'],
         nontrivial=lambda st, s: any(l.startswith('z ') and l != 'z -' for l in st),
